@@ -79,9 +79,15 @@ void PolicyBase::open( bool from_reopen)
 {
 
    const auto  filename = filename::Builder::filename( mFilenameDefinition);
+   // 'out | ate' alone truncates the file: keep the contents of an existing log
+   // file (the open check then sees its real size), only the file that is
+   // opened after the generations were rolled has to start empty
+   const auto  mode = from_reopen
+      ? std::ios_base::out | std::ios_base::trunc
+      : std::ios_base::out | std::ios_base::app | std::ios_base::ate;
 
 
-   mFile.open( filename, std::ios_base::out | std::ios_base::ate);
+   mFile.open( filename, mode);
 
    if (!mFile || !mFile.is_open())
    {
@@ -94,7 +100,7 @@ void PolicyBase::open( bool from_reopen)
          common::FileOperations::mkdir( path);
 
          // try again
-         mFile.open( filename, std::ios_base::out | std::ios_base::ate);
+         mFile.open( filename, mode);
       } // end if
    } // end if
 
